@@ -10,7 +10,19 @@ UNIT_SECONDS = {"weeks": 604800, "days": 86400, "hours": 3600, "minutes": 60, "s
 def run(case):
     """case: list of ops  ('create', timeout_dict) | ('advance', seconds) | ('access', idx, kind) | ('metrics',)"""
     del DESTROYED[:]
-    app = make_app(fake_clock=True)
+    import tempfile, shutil
+    tmpd = None
+    use_adapter = bool(case) and case[0] == ("adapter",)
+    if use_adapter:
+        from BPTK_Py.externalstateadapter import FileAdapter
+        tmpd = tempfile.mkdtemp(prefix="c17_")
+    try:
+        return _run(case, make_app(fake_clock=True, adapter=(FileAdapter(False, tmpd) if use_adapter else None)), use_adapter)
+    finally:
+        if tmpd:
+            shutil.rmtree(tmpd, ignore_errors=True)
+
+def _run(case, app, use_adapter):
     client = app.test_client()
     ids = []          # created instance ids
     last = {}         # id -> clock value of creation / last access
@@ -42,11 +54,15 @@ def run(case):
     held = []
     held_ids = set()
     for step, op in enumerate(case):
+        if op[0] == "adapter":
+            continue
         if op[0] == "create":
             u = start(client, timeout=op[1]); ids.append(u); last[u] = now()
             tmo[u] = sum(UNIT_SECONDS[k] * v for k, v in op[1].items())
             objs[u] = app._instance_manager._instances[u]["instance"]._verif_serial
             begin(client, u); last[u] = now()
+            if use_adapter:
+                client.post("/%s/run-step" % u); last[u] = now()        # a stepping request externalises the state
             bad = expect(step)
         elif op[0] == "advance":
             FakeClock.advance(op[1]); bad = None
@@ -82,10 +98,19 @@ def run(case):
             path = {"keep": "/%s/keep-alive", "step": "/%s/run-step", "results": "/%s/session-results"}[op[2]] % u
             was_expired = (u in gone) or expired(u)
             r = client.open(path, method="GET" if op[2] == "results" else "POST")
-            if u in gone:
+            if u in gone and use_adapter and op[2] != "keep":
+                # its state was externalised: the request restores it transparently, and it lives on from this access
+                bad = None
+                if not (200 <= r.status_code < 300):
+                    bad = "step %d: instance %d had timed out with its state externalised; the next request must restore it, it answered %d" % (step, ids.index(u), r.status_code)
+                else:
+                    gone.discard(u); last[u] = now()
+                    objs[u] = app._instance_manager._instances[u]["instance"]._verif_serial
+                    bad = expect(step)
+            elif u in gone:
                 # the id is no longer known: the request is refused and (not being an access to any instance) sweeps nothing
                 bad = None
-                if 200 <= r.status_code < 300:
+                if 200 <= r.status_code < 300 and not use_adapter:
                     bad = "step %d: timed-out instance %d answered %d" % (step, ids.index(u), r.status_code)
             elif was_expired:
                 # expired but not swept yet: this access re-stamps it first, so it either survives or is refused
@@ -107,7 +132,7 @@ exec(BODY)
 
 
 def gen(rnd):
-    case = []
+    case = [('adapter',)] if rnd.random() < 0.35 else []
     for _ in range(rnd.randint(2, 4)):
         unit = rnd.choice(['weeks', 'days', 'hours', 'minutes', 'seconds', 'milliseconds', 'microseconds'])
         val = rnd.choice([1, 2, 3])
